@@ -315,52 +315,68 @@ impl GraphInline {
         }
     }
 
-    pub fn change_key(&self, target_key: &Key, updated_key: &Key) -> GraphInline {
+    /// `relative_to` is the directory of the note that contains the inline
+    pub fn change_key(
+        &self,
+        target_key: &Key,
+        updated_key: &Key,
+        relative_to: &str,
+    ) -> GraphInline {
         match self {
             GraphInline::Emph(emph) => GraphInline::Emph(
                 emph.iter()
-                    .map(|inline| inline.change_key(target_key, updated_key))
+                    .map(|inline| inline.change_key(target_key, updated_key, relative_to))
                     .collect(),
             ),
 
             GraphInline::Strong(emph) => GraphInline::Strong(
                 emph.iter()
-                    .map(|inline| inline.change_key(target_key, updated_key))
+                    .map(|inline| inline.change_key(target_key, updated_key, relative_to))
                     .collect(),
             ),
             GraphInline::Underline(emph) => GraphInline::Underline(
                 emph.iter()
-                    .map(|inline| inline.change_key(target_key, updated_key))
+                    .map(|inline| inline.change_key(target_key, updated_key, relative_to))
                     .collect(),
             ),
 
             GraphInline::Strikeout(emph) => GraphInline::Strikeout(
                 emph.iter()
-                    .map(|inline| inline.change_key(target_key, updated_key))
+                    .map(|inline| inline.change_key(target_key, updated_key, relative_to))
                     .collect(),
             ),
             GraphInline::Superscript(emph) => GraphInline::Superscript(
                 emph.iter()
-                    .map(|inline| inline.change_key(target_key, updated_key))
+                    .map(|inline| inline.change_key(target_key, updated_key, relative_to))
                     .collect(),
             ),
             GraphInline::Subscript(emph) => GraphInline::Subscript(
                 emph.iter()
-                    .map(|inline| inline.change_key(target_key, updated_key))
+                    .map(|inline| inline.change_key(target_key, updated_key, relative_to))
                     .collect(),
             ),
             GraphInline::SmallCaps(emph) => GraphInline::SmallCaps(
                 emph.iter()
-                    .map(|inline| inline.change_key(target_key, updated_key))
+                    .map(|inline| inline.change_key(target_key, updated_key, relative_to))
                     .collect(),
             ),
-            GraphInline::Link(_, title, link_type, _) => {
-                if self.is_ref() && self.ref_key("").map_or(false, |key| key.eq(target_key)) {
+            GraphInline::Link(_, title, link_type, inlines) => {
+                if self.is_ref()
+                    && self
+                        .ref_key(relative_to)
+                        .map_or(false, |key| key.eq(target_key))
+                {
+                    // the url is written relative to the containing note; the text of a regular
+                    // link is refreshed from the title on the next format, a piped text is the
+                    // author's and is kept
                     return GraphInline::Link(
-                        updated_key.to_string(),
+                        updated_key.to_rel_link_url(relative_to),
                         title.clone(),
                         *link_type,
-                        vec![],
+                        match link_type {
+                            LinkType::WikiLinkPiped => inlines.clone(),
+                            _ => vec![],
+                        },
                     );
                 }
 
